@@ -74,7 +74,7 @@ CHECKS["C02"] = {
             "cursor sweep of malformed/edge encodings under honest, zero, all-(q-1), monomial and random public keys; crafted "
             "triples whose norm is EXACTLY bound+d for d in {-3..3, +-1000, +-q}: s2 chosen NTT-invertible (dense, sparse, "
             "large, and lopsided: s2 alone carries more than half of the bound), s1 with coefficients at +-6144/+-6143 in one style and completed by a four-square decomposition, "
-            "h = (c - s1)/s2. distinct_nontrivial = distinct triples whose class is non-trivial (honest accepted, mutated, "
+            "h = (c - s1)/s2; an interleaved pass alternates both variants in one thread, re-uses and revisits public keys (A, B, A) and swaps keys between signatures. distinct_nontrivial = distinct triples whose class is non-trivial (honest accepted, mutated, "
             "aliased, malformed cell, exact-norm) counted by (class, variant, case id).",
     "assumptions": ["reference Algorithm 16 in harness/src/refs (self-tested against SHAKE known answers and against PQClean at the exact boundary on every run)"],
     "legs": [{"name": "differential"}, {"name": "boundary"}],
@@ -153,7 +153,7 @@ CHECKS["C01"] = {
             "1 byte, lengths around the SHAKE rate, 4 KiB, 1 MiB/16 MiB) x 14 randomness strategies driven through the "
             "SignRng hook (honest; Bernoulli bytes forced to accept at rates 12-100% for 1-4 attempts -> norm-rejection "
             "branch; reject bursts; z0=0; constant and counter prefixes) x failpoint forcing 0/1/2/5 compression failures; hook events record which retry branch each execution took. (native) "
-            "the un-overridden thread_rng path, enough Falcon-1024 signatures to see NATURAL compression retries (~1/1000). "
+            "the un-overridden thread_rng path (with message-size sequences in one thread: equal lengths back to back with different content, 70 kB down to empty), enough Falcon-1024 signatures to see NATURAL compression retries (~1/1000). "
             "(concurrent) 2/8/16/64 threads behind a barrier sharing one key while keygen runs alongside; every signature "
             "verified in-thread, by the main thread and by the reference; call/return timestamps give the number of "
             "overlapping call pairs. distinct_nontrivial = distinct (variant, key, message shape, strategy, failpoint) cells "
